@@ -1,13 +1,15 @@
 """C01 — the IH5 overlay is transparent: patch boundaries are unobservable.
 
 Theorems (coq/Properties/C01.v): the overlay model refines the plain-tree specification for
-every history and every boundary placement (create_group, create_dataset, delete, attribute
-set/delete, boundaries; copy/move are covered by the correspondence only).
+every history of create_group / create_dataset / delete / attribute set / attribute delete /
+copy / move and every boundary placement (C01_transparent, C01_boundaries_unobservable).
 
 Correspondence: targeted and random histories run on a real IH5Record in a temp dir — result
 class and full view (visititems + attributes + values) after every step, raw container files
 at the end — against the overlay model, and on a plain h5py.File against the specification
-tree of the model.  Oracle for the failing-input search (no model involved): IH5Record vs.
+tree of the model.  Synthetic container stacks (written with raw h5py calls into real record
+files, also shapes the write path never produces) are read through the overlay and compared
+with the model's read path.  Oracle for the failing-input search (no model involved): IH5Record vs.
 h5py.File in lock-step on the same history.
 """
 from __future__ import annotations
@@ -41,6 +43,13 @@ def _both(ops, op_timeout):
 
 def w_both(ops):
     return _both(ops, OP_TIMEOUT)
+
+
+def w_raw(conts):
+    try:
+        return ih5lib.exec_raw_stack(conts, op_timeout=OP_TIMEOUT)
+    except Exception as e:  # noqa: BLE001
+        return {"view": ["HARNESS", f"{type(e).__name__}: {e}"[:200]], "raw": None}
 
 
 def first_diff(ih5, h5) -> Optional[Dict[str, Any]]:
@@ -212,8 +221,8 @@ def targeted(rng, keys, attr_keys) -> List[Any]:
 def gen_cases(ctx) -> List[List[Any]]:
     rng = ctx.rng
     cases = list(ih5lib.pattern_histories())
-    ntarget = ctx.budget(70, 1200)
-    nrand = ctx.budget(130, 2600)
+    ntarget = ctx.budget(120, 2000)
+    nrand = ctx.budget(260, 4500)
     maxops = ctx.budget(20, 36)
     for i in range(ntarget + nrand):
         keys = rng.sample(KEY_POOL, rng.randint(3, 6))
@@ -238,7 +247,7 @@ def run(ctx: vlib.Ctx):
     cov["trusted_base"] = vlib.TRUSTED_COMMON + [
         "modelled, not verified: single-file HDF5/h5py semantics (the plain specification tree t_step, validated on every run "
         "against h5py.File itself), h5py dataset options and numpy value semantics beyond equality of encoded values, "
-        "links (refused by the code); copy/move: refinement not proved, model and specification compared on every generated history",
+        "links (refused by the code)",
     ]
     cases = gen_cases(ctx)
     model = vlib.run_model("c01", cases)
@@ -301,6 +310,28 @@ def run(ctx: vlib.Ctx):
                     disagreements.append({"kind": "raw-containers", "case": ci, "ops": ops, "container": k,
                                           "model": mc[k] if k < len(mc) else None,
                                           "impl": ih5["raw"][k] if k < len(ih5["raw"]) else None})
+    # ---- synthetic raw stacks: the read path alone (IH5InnerNode._children / _node_seq vs. status)
+    rng = ctx.rng
+    stacks = []
+    for _ in range(ctx.budget(300, 5000)):
+        ks = rng.sample(KEY_POOL, 3)
+        stacks.append(ih5lib.gen_raw_stack(rng, keys=ks, attr_keys=rng.sample(KEY_POOL, 2)))
+    smodel = vlib.run_model("c01", [["raw", st] for st in stacks])
+    simpl = vlib.pmap(w_raw, stacks, chunksize=4)
+    raw_pinned_differs = 0
+    for si, (st, m, r) in enumerate(zip(stacks, smodel, simpl)):
+        mv, mp = norm_view(m[0]), norm_view(m[1])
+        if mv != mp:
+            raw_pinned_differs += 1
+        if r["raw"] != st:
+            disagreements.append({"kind": "raw-stack-write", "stack": st, "impl": r["raw"] or r["view"],
+                                  "what": "harness could not materialise the generated containers"})
+        elif r["view"] != mv:
+            disagreements.append({"kind": "raw-stack-read", "stack": st, "model": mv, "impl": r["view"],
+                                  "impl_matches_pinned_rule": r["view"] == mp,
+                                  "what": "view of a synthetic container stack differs from the model's read path (C01_no_resurrection / status)"})
+    ctx.sample({"raw_stack": stacks[1], "model_view": norm_view(smodel[1][0])})
+
     ctx.sample({"history": cases[0], "model_final_view": norm_view(model[0][0][-1][3])})
     ctx.sample({"history": cases[len(ih5lib.pattern_histories()) + 1]})
     ctx.sample({"history": cases[-1]})
@@ -337,23 +368,25 @@ def run(ctx: vlib.Ctx):
         ctx.notes.append("oracle hits present but none survived shrinking")
 
     xc = vlib.coq_crosscheck("c01", cases, model, "c01", max_cases=ctx.budget(10, 40))
-    cov["evaluations"] = len(cases)
+    cov["evaluations"] = len(cases) + len(stacks)
     cov["distinct_nontrivial"] = len(nontrivial)
     cov["rule"] = ("fixed patterns + randomised targeted shapes (replace-then-touch over >=3 containers, create below deleted ancestors, "
                    "copy of a group into its own subtree, attribute carriers on datasets) each followed by a random tail + random histories "
                    "from a shadow-tree-biased generator with a malformed-operation stream; per-history key alphabet of 3-6 keys drawn from "
                    "printable ASCII without '@' and '/'; boundaries at random positions, 1-6 containers; non-trivial = distinct history "
-                   "with at least one successful mutation after a boundary")
+                   "with at least one successful mutation after a boundary; plus synthetic raw container stacks (1-5 well-formed "
+                   "containers over 3 keys, virtual/overwrite groups, datasets, markers, attributes) for the read path")
     cov["input_distribution"] = {"histories": len(cases), "distinct_histories": len(distinct), "steps": nsteps,
                                  "steps_succeeding": ok_steps, "op_kinds": opkinds,
-                                 "containers_per_history": conts_hist, "raw_container_sets_compared": raw_compared}
+                                 "containers_per_history": conts_hist, "raw_container_sets_compared": raw_compared,
+                                 "synthetic_raw_stacks": len(stacks),
+                                 "synthetic_raw_stacks_where_pinned_rule_differs": raw_pinned_differs}
     cov["traces_validated_against_impl"] = len(cases) - len({d["case"] for d in disagreements if "case" in d})
     cov["coq_crosscheck"] = xc
     cov["disagreements"] = len(disagreements)
     cov["disagreement_kinds"] = _hist(d["kind"] for d in disagreements)
     cov["oracle_failures"] = len(oracle_hits)
-    cov["proved_operations"] = ["create_group", "create_dataset", "delete", "attr set", "attr delete", "boundary"]
-    cov["unproved_operations_checked_by_correspondence_only"] = ["copy", "move"]
+    cov["proved_operations"] = ["create_group", "create_dataset", "delete", "attr set", "attr delete", "copy", "move", "boundary"]
     ctx.assumptions += ["keys from the IH5 alphabet (printable ASCII without '@' and '/'), the key '.' excluded (HDF5 reads it as the group itself)",
                         "the IH5 deletion-marker value is not used as data (refused by code and model; C17 covers the guard)",
                         "moving a node into its own subtree excluded (as in the property)"]
@@ -364,7 +397,7 @@ def run(ctx: vlib.Ctx):
         ctx.violation("proof obligations of Properties/C01.v do not check: " + "; ".join(proof["problems"])[:500],
                       {"kind": "proof", "theorem_file": "coq/Properties/C01.v", "problems": proof["problems"]}, found_input=False)
     if disagreements and not ctx.violations and not ctx.known_hits:
-        d0 = min(disagreements, key=lambda d: len(d.get("ops", [])))
+        d0 = min(disagreements, key=lambda d: len(d.get("ops", d.get("stack", []))))
         ctx.violation("model/implementation correspondence broken but IH5 and plain HDF5 agree on every explored history: " + d0["kind"],
                       {"kind": "correspondence", "correspondence": "coq/IH5/Overlay.v (m_step / t_step / raw containers) vs IH5Record / h5py.File",
                        "smallest_disagreement": d0, "count": len(disagreements)}, found_input=False)
